@@ -28,6 +28,13 @@ for d in seeded:
     rows.append(f"| {d} | {m.get('description', '')} | {m.get('needs', '')} | {fmt(first)} | {fmt(last)} ({', '.join(mech[:3])}) |")
 table = "\n".join(rows)
 extra = open(os.path.join(HERE, 'tools', 'design_tail.md')).read()
+w8 = [d for d in seeded if '-w8' in d]
+w8first = 0
+for d in w8:
+    m = json.load(open(os.path.join(HERE, 'seeded', d, 'meta.json')))
+    h0 = (m.get('check_history') or [{}])[0].get('checks', {})
+    w8first += any(v['caught'] for v in h0.values())
+extra = extra.replace('@@W8N@@', str(len(w8))).replace('@@W8FIRST@@', str(w8first))
 sec = extra.replace('@@FIXES@@', fixes).replace('@@TABLE@@', table).replace('@@NSEEDED@@', str(len(seeded))).replace('@@NFIRST@@', str(ncaught_first))
 p = os.path.join(HERE, 'DESIGN.md')
 s = open(p).read()
